@@ -8,8 +8,10 @@
    Every AccountManager/Budget method body runs under am.mu and every store method is one
    SQL transaction on a single connection, so one [op] = one atomic step and a schedule of
    concurrent RPCs is a list of ops.
-   The model corresponds to /repo WITH fixes/C04-rhp4-debit-metric.patch (RHP4DebitAccount
-   decrements the accountBalance metric).
+   The model corresponds to /repo HEAD, which contains fix 04473e2 (= fixes/C04-rhp4-debit-metric.patch:
+   RHP4DebitAccount decrements the accountBalance metric; without it c04_metrics_exact is false)
+   and f936643 (= fixes/C04-rhp4-debit-expiration.patch: the expiration written by an RHP4 debit
+   is encoded, so Store.Accounts can list the account again).
    Abstracted (see Funding/Model.v, C11): the attribution of a debit to funding contracts and
    the contract row updates inside the same transactions; they cannot fail on a consistent
    store (c11_debit_never_panics) except through the funding contract being absent, which is
@@ -161,7 +163,7 @@ Definition store_r4credit (s : state) (deps : list (N * N)) (fund : N) (cok : bo
   do nm <- stat_add (mBalance s) fund;
   Ok (set_store s st nm (mActive s + created)%N, bals).
 
-(* Store.RHP4DebitAccount, with the metric decrement of fixes/C04-rhp4-debit-metric.patch *)
+(* Store.RHP4DebitAccount (incl. the metric decrement added by fix 04473e2) *)
 Definition store_r4debit (s : state) (a amt : N) : res state :=
   match alookup a (store s) with
   | None => Err EInsufficient
